@@ -22,9 +22,9 @@ func init() {
 			"non-termination shows as the 64 MB stack limit of the child process or the watchdog"},
 		Cases: func(tier string) int {
 			if tier == "quick" {
-				return 128
+				return 6400
 			}
-			return 1600
+			return 64000
 		},
 		Run:      runC14,
 		Required: []string{"queries.uncapped", "queries.capped_hit", "queries.capped_not_hit", "nets.dag", "nets.cyclic", "nets.self_loop", "sequences.after_cap_hit"},
